@@ -78,6 +78,7 @@ Proof.
   apply G. intros y. destruct l; try (intros [= <-]; apply spanned_leaf_in).
   - unfold float_from_string. destruct (pf b s); [discriminate|intros [= <-]; apply unsp_okw, unsp_new].
   - destruct (pf b digits); [discriminate|]. intros [= <-]. repeat constructor. apply span_inside_refl.
+  - destruct (pf b digits); [discriminate|]. intros [= <-]. repeat constructor. apply span_inside_refl.
 Qed.
 
 Lemma flag_inside : inside_fm flag_fm.
